@@ -57,6 +57,24 @@ CHECKS.update({
          '2^32-3 through a virtual 4 GiB stream: getdstflow = offset + length + sext(disp) mod 2^opsize.',
          'Trusts the control-flow table in mc/props/c17.py and objdump for the cross-check.', '4 C17'),
 })
+CHECKS.update({
+ 'C10': ('exploration', 'bounded exhaustive enumeration of byte strings (with every truncation and stream offset) and of token sequences against a totality contract',
+         'Every string of S_x86 without any filter, every shorter prefix of every distinct decoded instruction, and decoding from streams at offsets '
+         '0/1/7 with and without trailing bytes; every token sequence up to length 3 over 64 tokens, 5 over 12, 7 (thorough 8) over 5, and every '
+         'single-token edit of a corpus of valid lines, through asm and asm_att. Contract: None or a renderable instruction with consistent '
+         'length/offset bookkeeping; a list or ValueError; 5 s watchdog.',
+         'ValueError is taken as the documented assembler error.', '4 C10'),
+ 'C11': ('exploration', 'bounded exhaustive enumeration of decodable instructions through an independent IR type checker',
+         'Every string of S_x86 that miasmX decodes, objdump accepts and whose mnemonic has lifted semantics (incl. 66/67 prefix sets) is lifted; '
+         'the result must be a list of well-formed assignments by the rules the property states, checked by a walker that only reads public fields.',
+         'Operators other than + - * & | ^ == and the arithmetic lifter operators carry no declared width: comparisons involving them are skipped.', '4 C11'),
+ 'C18': ('exploration', 'complete enumeration of constrained-bit assignments per class pair (all 2^32 words) + bounded exhaustive word space against llvm-mc',
+         'Unambiguity is decided for all 2^32 words: per-field acceptance sets come from the real mask check() methods, every assignment of each '
+         'connected component of constrained bits is enumerated for every class pair, witnesses re-checked on the real check(). The structured word '
+         'space (64 primary x 2048 low patterns x operand patterns + D-form immediates + all BO x BI + SPRs) is decoded, re-encoded, rendered, '
+         're-assembled, and (class, mnemonic) compared with llvm-mc through a reviewed relation table; unclaimed words must not decode.',
+         'Trusts llvm-mc 14 and the reviewed table mc/ppc_llvm_pairs.json.', '4 C18'),
+})
 PENDING = {}
 
 def main():
